@@ -5,10 +5,10 @@ import (
 	"crypto/x509"
 	"crypto/x509/pkix"
 	"encoding/asn1"
+	"encoding/hex"
 	"errors"
 	"fmt"
 	"math/big"
-	"strings"
 	"time"
 
 	"github.com/emmansun/gmsm/cfca"
@@ -172,39 +172,23 @@ func makeCert(c *mon.Case, k *sm2.PrivateKey) (*smx509.Certificate, error) {
 	return smx509.ParseCertificate(der)
 }
 
-// ---------------------------------------------------------------- bug model for the open CFCA finding
-
-// cfcaOversizePanic recognises the defect "cfca.ParseSM2 panics instead of returning an
-// error when the decrypted key octets do not fit 32 bytes": the reference decryption of
-// the blob under this password has valid padding, the value needs more than 256 bits,
-// and the panic is math/big's FillBytes complaint raised by sm2.NewPrivateKeyFromInt.
-func cfcaOversizePanic(p *mon.PanicInfo, password, blob []byte) bool {
-	if p == nil || !strings.Contains(p.String(), "math/big: buffer too small to fit value") ||
-		!strings.Contains(p.Stack, "sm2.NewPrivateKeyFromInt") {
-		return false
-	}
-	plain, _, _, err := refOpenCFCA(password, blob)
-	return err == nil && new(big.Int).SetBytes(plain).BitLen() > 256
-}
-
-// cfcaParse runs cfca.ParseSM2 as a negative (wrong password): error = refused,
-// key = violation, panic = violation unless it is the modelled open finding.
+// cfcaParseNegative runs cfca.ParseSM2 with a wrong password: an error is the only
+// acceptable outcome - never a key, never a panic (about one wrong password in 256
+// decrypts the key octets to validly padded data longer than 32 bytes; before fix
+// eb90845 sm2.NewPrivateKeyFromInt panicked on such a value).
 func cfcaParseNegative(c *mon.Case, what string, password, blob []byte) {
 	var k *sm2.PrivateKey
 	var err error
 	p := mon.Try(func() { k, _, err = cfca.ParseSM2(password, blob) })
-	switch {
-	case p == nil:
+	if p == nil {
 		refused(c, what, k, err)
-	case cfcaOversizePanic(p, password, blob):
-		c.Event("negatives_panicked_known", 1)
-		c.Detail("blob", blob)
-		c.Detail("password_used", password)
-		c.Known("cfca-oversize-scalar-panic", "panic", "%s: panics (%v) instead of returning an error: the decrypted octets have valid padding and a value above 2^256", what, p.Value)
-	default:
-		c.Detail("stack", p.Stack)
-		c.Fail("panic", "%s: panic: %v", what, p.Value)
+		return
 	}
+	c.Event("negatives_panicked", 1)
+	c.Detail("blob_hex", hex.EncodeToString(blob))
+	c.Detail("password_used", password)
+	c.Detail("stack", p.Stack)
+	c.Fail("panic", "%s: panic instead of an error: %v", what, p.Value)
 }
 
 // ---------------------------------------------------------------- workload: round trips, wrong keys, wrong passwords
